@@ -1,4 +1,5 @@
 import Rivaas.Lemmas.OpenAPIWF
+set_option linter.unusedSimpArgs false
 /-
 C07 — property theorems (generated OpenAPI documents are valid, closed, complete and deterministic).
 -/
